@@ -1,12 +1,15 @@
 #!/bin/sh
-# tools/try_seed.sh <PROP> <patch.diff> [tier]: apply a seeded change to /repo, run the property's check, undo it.
+# tools/try_seed.sh <PROP> <patch.diff> [tier]: apply a seeded change to the repository, run the property's check, undo it.
+# Repository and framework default to /repo and /verif; a parallel worker sets VERIF_REPO / VERIF_ROOT to its own worktree / copy.
 P="$1"; PATCH="$(readlink -f "$2")"; TIER="${3:-quick}"
-git -C /repo diff --quiet || { echo "/repo is dirty"; exit 2; }
-git -C /repo apply "$PATCH" || { echo "patch does not apply"; exit 2; }
-cd /verif && cp -f evidence/$P.json /tmp/try_seed.evidence.$P 2>/dev/null
-./check "$P" --tier "$TIER" > /tmp/try_seed.out 2>&1; rc=$?
-cp -f /tmp/try_seed.evidence.$P evidence/$P.json 2>/dev/null   # the committed evidence must come from the unchanged tree
-git -C /repo checkout -- . && git -C /repo clean -fdq -- src examples tests 2>/dev/null
+R="${VERIF_REPO:-/repo}"; V="${VERIF_ROOT:-/verif}"
+git -C "$R" diff --quiet || { echo "$R is dirty"; exit 2; }
+git -C "$R" apply "$PATCH" || { echo "patch does not apply"; exit 2; }
+cd "$V" && cp -f evidence/$P.json /tmp/try_seed.evidence.$P.$$ 2>/dev/null
+./check "$P" --tier "$TIER" > /tmp/try_seed.out.$$ 2>&1; rc=$?
+cp -f /tmp/try_seed.evidence.$P.$$ evidence/$P.json 2>/dev/null; rm -f /tmp/try_seed.evidence.$P.$$   # the committed evidence must come from the unchanged tree
+git -C "$R" checkout -- . && git -C "$R" clean -fdq -- src examples tests 2>/dev/null
 # the Tie-A files were regenerated from the patched tree: regenerate them from the restored one
-for t in tools/tiea/*.py; do python3 tools/rs2v.py "$(basename "$t" .py)" /repo/src >/dev/null 2>&1 || true; done
-echo "exit=$rc"; grep -E "VIOLATION|KNOWN|obligations" /tmp/try_seed.out
+for t in tools/tiea/*.py; do python3 tools/rs2v.py "$(basename "$t" .py)" "$R/src" >/dev/null 2>&1 || true; done
+cp -f /tmp/try_seed.out.$$ /tmp/try_seed.out 2>/dev/null
+echo "exit=$rc"; grep -E "VIOLATION|KNOWN|obligations" /tmp/try_seed.out.$$; rm -f /tmp/try_seed.out.$$
